@@ -4,6 +4,7 @@
 mod c06;
 mod c07;
 mod c11;
+mod c12;
 mod c13;
 mod c14;
 mod c15;
@@ -128,6 +129,7 @@ fn main() {
             "C06" => c06::replay(&prop, &line, &mut out),
             "C07" | "C08" => c07::replay(&prop, &line, &mut out),
             "C11" => c11::replay(&line, &mut out),
+            "C12" => c12::replay(&line, &mut out),
             "C13" => c13::replay(&line, &mut out),
             "C14" => c14::replay(&line, &mut out),
             "C15" => c15::replay(&line, &mut out),
@@ -151,6 +153,7 @@ fn main() {
         "C06" => c06::run(&prop, &opts, &mut out),
         "C07" | "C08" => c07::run(&prop, &opts, &mut out),
         "C11" => c11::run(&opts, &mut out),
+        "C12" => c12::run(&opts, &mut out),
         "C13" => c13::run(&opts, &mut out),
         "C14" => c14::run(&opts, &mut out),
         "C15" => c15::run(&opts, &mut out),
